@@ -402,7 +402,7 @@ class CodecJob:
     def run(self, logdir):
         import smtengine
         t0 = time.time()
-        q = smtengine.Queries(logdir, self.name.replace("::", "-").replace("[", "").replace("]", ""))
+        q = smtengine.Queries(logdir, self.name.replace("::", "-").replace("[", "").replace("]", ""), keep_unsat=False)
         obligations, violations, samples = [], [], []
         fns = set()
         npaths = 0
